@@ -168,6 +168,23 @@ def random_cases(family, rng, count):
             lr, rr = rng.random() < 0.5, rng.random() < 0.5
             lq, rq = Fraction(rng.randint(-2, 8), 8), Fraction(rng.randint(0, 10), 8)
             out.append({"fn": "truncate", "x": X, "y": Y, "left": R(lq if lr else xs[0] + lq * span), "right": R(rq if rr else xs[0] + rq * span), "lr": lr, "rr": rr})
+            # the same request after the series was made denser than its reference (interpolate(m), m - 1 a power of two: the
+            # grid and the bounds stay exact): working and reference are cut with the same bounds, not the same indices
+            m = rng.choice([5, 9, 17])
+            gx = [xs[0] + span * Fraction(j, m - 1) for j in range(m)]
+            ysf = [Fraction(*v) for v in Y]
+            def lin(t):
+                k = min(max(i for i in range(n) if xs[i] <= t), n - 2)
+                return ysf[k] + (ysf[k + 1] - ysf[k]) * (t - xs[k]) / (xs[k + 1] - xs[k])
+            gy = [lin(t) for t in gx]
+            if n >= 2 and max(v.denominator for v in gx + gy) <= 4096:
+                lq2, rq2 = Fraction(rng.randint(0, 7), 8), Fraction(rng.randint(1, 9), 8)
+                if rng.random() < 0.5:      # bounds on samples of the denser series that the reference does not have
+                    lq2, rq2 = Fraction(rng.randrange(m), m - 1), Fraction(rng.randrange(m), m - 1)
+                lr2, rr2 = rng.random() < 0.5, rng.random() < 0.5
+                out.append({"fn": "truncate", "x": [R(v) for v in gx], "y": [R(v) for v in gy], "rx0": X, "ry0": Y,
+                            "pre": [{"k": "interpolate_n", "n": m, "method": "linear"}],
+                            "left": R(lq2 if lr2 else xs[0] + lq2 * span), "right": R(rq2 if rr2 else xs[0] + rq2 * span), "lr": lr2, "rr": rr2})
             s, t = sorted([rng.randrange(n), rng.randrange(n)])
             start = NONE if rng.random() < 0.2 else R(xs[s]) if rng.random() < 0.85 else R(xs[s] + Fraction(1, 16))
             stop = NONE if rng.random() < 0.2 else R(xs[t]) if rng.random() < 0.85 else R(xs[t] + Fraction(1, 16))
@@ -247,14 +264,14 @@ def random_cases(family, rng, count):
         if intcase:
             for k in out[first:]:
                 if k["fn"] in ("truncate", "slice_value", "slice_index", "truncate_index", "normalize", "shiftscale", "linear_trend") \
-                        and "container" not in k and all(r[1] == 1 for r in k.get("x", k.get("a"))):
+                        and "container" not in k and "pre" not in k and all(r[1] == 1 for r in k.get("x", k.get("a"))):
                     k["container"] = rng.choice(["int", "int32", "list"])
     for k in out:       # the same repeat in a much smaller time unit (an exact power-of-two change of scale)
         if k["fn"] == "repeat" and "x0" not in k and k.get("container", "array") == "array" and rng.random() < 0.12:
             k["xscl"] = rng.choice([-34, -40, -50])
     # the same requests far from the origin of the time axis (epoch seconds, 2^40): an exact translation, see fnexec.xoff
     for k in out:
-        if k["fn"] in ("truncate", "slice_value", "repeat", "interp") and "x0" not in k and "xscl" not in k and rng.random() < 0.15 \
+        if k["fn"] in ("truncate", "slice_value", "repeat", "interp") and "x0" not in k and "pre" not in k and "xscl" not in k and rng.random() < 0.15 \
                 and k.get("container", "array") in ("array", "list", "series") and "xcontainer" not in k and "qcontainer" not in k \
                 and all(r[1] in (1, 2, 4, 8, 16, 32, 64, 128, 256) for r in k["x"]):        # translated abscissae must stay exactly representable
             k["xoff"] = [rng.choice([-1, 1]), rng.choice([31, 40])]
@@ -262,7 +279,7 @@ def random_cases(family, rng, count):
 
 
 CASE_KEYS = ("fn", "x", "y", "r", "a", "b", "left", "right", "lr", "rr", "start", "stop", "step", "explicit_none", "q", "n", "mode",
-             "qcontainer", "xcontainer", "explicit_method", "x0", "y0", "pre", "c", "normalized", "axis", "other", "lo", "hi", "op", "v", "container", "method", "m", "b", "xoff", "r_kind", "intcoef", "also_n", "xscl", "aoff")   # x0 / y0 / pre are already listed
+             "qcontainer", "xcontainer", "explicit_method", "x0", "y0", "rx0", "ry0", "pre", "c", "normalized", "axis", "other", "lo", "hi", "op", "v", "container", "method", "m", "b", "xoff", "r_kind", "intcoef", "also_n", "xscl", "aoff")   # x0 / y0 / pre are already listed
 
 
 def case_of_event(ev):
